@@ -42,15 +42,80 @@ def _find_binop_feeding_assert(fn, bb):
 def const_div(fn, du, site):
     if site.kind != "K3" or site.what not in ("DivisionByZero", "RemainderByZero"):
         return None
-    # the division itself is in the assert's target block
+    # the division itself is in the assert's target block (possibly after the second, MIN / -1, assert)
+    tgt = site.term["t"]
+    for _ in range(3):
+        for s in fn["blocks"][tgt]["s"]:
+            rv = s["rv"]
+            if rv["k"] == "binop" and rv["op"] in ("Div", "Rem"):
+                v = _const_int(fn, du, rv["b"])
+                if v is not None and v != 0:
+                    return "divisor is the literal %d" % v
+        t2 = fn["blocks"][tgt]["t"]
+        if t2["k"] == "assert":
+            tgt = t2["t"]
+        else:
+            break
+    return None
+
+
+def const_div_overflow(fn, du, site):
+    """the `MIN / -1` overflow assert of a signed division by a literal other than -1"""
+    if site.kind != "K3" or site.what != "Overflow":
+        return None
     tgt = site.term["t"]
     for s in fn["blocks"][tgt]["s"]:
         rv = s["rv"]
         if rv["k"] == "binop" and rv["op"] in ("Div", "Rem"):
             v = _const_int(fn, du, rv["b"])
-            if v is not None and v != 0:
-                return "divisor is the literal %d" % v
+            if v is not None and v not in (0, -1):
+                return "signed division by the literal %d cannot overflow" % v
     return None
+
+
+def counter_from_zero(fn, du, cfg, site):
+    """`x += 1` on a 64-bit-or-wider counter that starts at a literal and is only ever incremented by 1 inside a loop:
+    overflow needs 2^63 iterations"""
+    if site.kind != "K3" or site.what != "Overflow":
+        return None
+    b = fn["blocks"][site.bb]
+    adds = [s for s in b["s"] if s["rv"]["k"] == "binop" and s["rv"]["op"] in ("AddWithOverflow", "Add")]
+    if not adds:
+        return None
+    rv = adds[-1]["rv"]
+    if rv["ty"] not in ("usize", "u64", "i64", "u128", "i128", "isize"):
+        return None
+    step = _const_int(fn, du, rv["b"])
+    xl = mir.op_place(rv["a"])
+    if step != 1 or xl is None or xl["p"]:
+        return None
+    x = xl["l"]
+    # every definition of x: a literal, or the result of this very increment
+    for d in du.defs.get(x, []):
+        if d[0] != "stmt":
+            return None
+        r2 = d[3]["rv"]
+        if r2["k"] == "use":
+            c = mir.op_const(r2["op"])
+            if c is not None and "int" in c and 0 <= c["int"] < (1 << 32):
+                continue
+            pl = mir.op_place(r2["op"])
+            # `x = move (_t.0)` where _t is the checked-add tuple of an increment of x
+            if pl is not None and pl["p"] and pl["p"][0][0] == "f":
+                ok_src = False
+                for d2 in du.defs.get(pl["l"], []):
+                    if d2[0] == "stmt" and d2[3]["rv"]["k"] == "binop" and d2[3]["rv"]["op"] in ("AddWithOverflow", "Add"):
+                        a2 = mir.op_place(d2[3]["rv"]["a"])
+                        if a2 is not None and a2["l"] == x and _const_int(fn, du, d2[3]["rv"]["b"]) == 1:
+                            ok_src = True
+                if ok_src:
+                    continue
+            return None
+        else:
+            return None
+    if not du.defs.get(x):
+        return None
+    return "counter starts at a literal and only ever grows by 1: overflow would need 2^63 iterations"
 
 
 def counter(fn, du, cfg, site):
@@ -230,8 +295,128 @@ def infallible(fn, du, site):
     return None
 
 
+def range_full(fn, du, site):
+    """`x[..]`: indexing with RangeFull never panics"""
+    if site.kind != "K4" or "Index" not in site.what:
+        return None
+    g = site.term.get("gargs") or []
+    if any(x == "std::ops::RangeFull" for x in g):
+        return "indexing with `..` (RangeFull) cannot be out of bounds"
+    return None
+
+
+def _is_size(fn, du, op, depth=0):
+    """does the operand derive only from collection sizes (len/count/capacity), literals and sums of such?"""
+    c = mir.op_const(op)
+    if c is not None:
+        return "int" in c and 0 <= c["int"] < (1 << 32)
+    for o in mir.provenance(fn, du, op, transparent_extra=("std::option::Option::<T>::unwrap_or", "std::option::Option::<T>::get_or_insert",
+                                                            "std::option::Option::<T>::unwrap_or_default")):
+        if o.kind == "call":
+            n = o.callee
+            if n.endswith("::len") or n.endswith("::count") or n.endswith("::capacity"):
+                continue
+            return False
+        if o.kind == "const":
+            if "int" in o.const and 0 <= o.const["int"] < (1 << 32):
+                continue
+            return False
+        return False
+    return True
+
+
+def sizes_sum(fn, du, site):
+    """usize addition of in-memory collection sizes"""
+    if site.kind != "K3" or site.what != "Overflow":
+        return None
+    b = fn["blocks"][site.bb]
+    adds = [s for s in b["s"] if s["rv"]["k"] == "binop" and s["rv"]["op"] in ("AddWithOverflow", "Add")]
+    if not adds or adds[-1]["rv"]["ty"] != "usize":
+        return None
+    rv = adds[-1]["rv"]
+    if _is_size(fn, du, rv["b"]) or _is_size(fn, du, rv["a"]):
+        # the other side is an accumulator of such sizes or a size itself; a sum of sizes of live collections is
+        # bounded by the address space
+        return "usize sum of in-memory collection sizes (bounded by the address space)"
+    return None
+
+
+def sub_guard(fn, du, cfg, site):
+    """`a - b` dominated by the true edge of `b < a` / `b <= a` (same operands)"""
+    if site.kind != "K3" or site.what != "Overflow":
+        return None
+    b = fn["blocks"][site.bb]
+    subs = [s for s in b["s"] if s["rv"]["k"] == "binop" and s["rv"]["op"] in ("SubWithOverflow", "Sub")]
+    if not subs:
+        return None
+    rv = subs[-1]["rv"]
+
+    def sig(op, depth=0):
+        out = []
+        for o in mir.provenance(fn, du, op):
+            if o.kind == "call" and depth < 3 and o.term is not None and o.term["args"] and o.callee.endswith(("::len", "::count")):
+                out.append("len-of" + repr(sig(o.term["args"][0], depth + 1)))
+            else:
+                out.append(repr(o))
+        return tuple(sorted(out))
+    sa, sb = sig(rv["a"]), sig(rv["b"])
+    for bi, b2 in enumerate(fn["blocks"]):
+        if b2["cleanup"] or bi not in cfg.reach:
+            continue
+        for s in b2["s"]:
+            r2 = s["rv"]
+            if r2["k"] != "binop" or r2["op"] not in ("Lt", "Le", "Gt", "Ge"):
+                continue
+            x, y = sig(r2["a"]), sig(r2["b"])
+            good = (r2["op"] in ("Lt", "Le") and x == sb and y == sa) or (r2["op"] in ("Gt", "Ge") and x == sa and y == sb)
+            if not good:
+                continue
+            t = b2["t"]
+            if t["k"] != "switch":
+                continue
+            dpl = mir.op_place(t["discr"])
+            if dpl is None or dpl["l"] != s["lhs"]["l"]:
+                continue
+            if cfg.dominates(t["otherwise"], site.bb):
+                return "subtraction dominated by the test that the subtrahend is not larger"
+    return None
+
+
+BITS = {"u8": 8, "i8": 8, "u16": 16, "i16": 16, "u32": 32, "i32": 32, "u64": 64, "i64": 64, "usize": 64, "isize": 64, "u128": 128, "i128": 128}
+
+
+def widen(fn, du, site):
+    """add/sub of two values both widened from a type of at most half the width"""
+    if site.kind != "K3" or site.what != "Overflow":
+        return None
+    b = fn["blocks"][site.bb]
+    ops = [s for s in b["s"] if s["rv"]["k"] == "binop" and s["rv"]["op"] in ("SubWithOverflow", "Sub", "AddWithOverflow", "Add")]
+    if not ops:
+        return None
+    rv = ops[-1]["rv"]
+    w = BITS.get(rv["ty"])
+    if not w:
+        return None
+    for side in ("a", "b"):
+        pl = mir.op_place(rv[side])
+        if pl is None:
+            c = mir.op_const(rv[side])
+            if c is not None and "int" in c and abs(c["int"]) < (1 << (w // 2)):
+                continue
+            return None
+        ds = du.defs.get(pl["l"], [])
+        if len(ds) != 1 or ds[0][0] != "stmt" or ds[0][3]["rv"]["k"] != "cast" or ds[0][3]["rv"]["ck"] != "IntToInt":
+            return None
+        fw = BITS.get(ds[0][3]["rv"]["from"])
+        if not fw or fw * 2 > w:
+            return None
+    return "both operands are widened from a type of at most half the width"
+
+
 def try_all(fn, du, cfg, site):
-    for d in (lambda: const_div(fn, du, site), lambda: counter(fn, du, cfg, site), lambda: len_guard(fn, du, cfg, site),
+    for d in (lambda: const_div(fn, du, site), lambda: const_div_overflow(fn, du, site), lambda: counter(fn, du, cfg, site),
+              lambda: counter_from_zero(fn, du, cfg, site), lambda: range_full(fn, du, site), lambda: sizes_sum(fn, du, site),
+              lambda: sub_guard(fn, du, cfg, site), lambda: widen(fn, du, site), lambda: len_guard(fn, du, cfg, site),
               lambda: some_set(fn, du, cfg, site), lambda: is_some_guard(fn, du, cfg, site), lambda: infallible(fn, du, site)):
         r = d()
         if r:
